@@ -49,6 +49,8 @@ type Scenario struct {
 	GapUS      int       `json:"gap_us"` // scale of the idle time between arrivals
 	Faults     []Fault   `json:"faults,omitempty"`
 	Restarts   []Restart `json:"restarts,omitempty"`
+	// Conc (mode conc, see conc.go): reports produced while packets are being processed.
+	Conc *Conc `json:"conc,omitempty"`
 	// Strict selects the literal reading of the statement (never set by the
 	// generator; used to replay the two observations listed in Assumptions):
 	// only injected restarts excuse a backward step or a repeated delivery, and
@@ -71,6 +73,10 @@ func effBuf(b int) int {
 }
 
 func gen(seed uint64, tier string) Scenario {
+	// a twelfth of the runs: reports concurrent with packets (hash-derived so that no other choice moves)
+	if core.HS(seed, "c14.conc", "", 0)%12 == 0 {
+		return genConc(seed)
+	}
 	r := core.NewRand(seed, "c14")
 	sc := Scenario{Seed: seed}
 	sc.Unreliable = r.Bool(0.7)
@@ -250,6 +256,17 @@ func minInt(a, b int) int {
 }
 
 func shrink(sc Scenario) []Scenario {
+	if sc.Conc != nil {
+		var out []Scenario
+		if sc.Conc.Packets > 20 {
+			c := sc
+			cc := *sc.Conc
+			cc.Packets /= 2
+			c.Conc = &cc
+			out = append(out, c)
+		}
+		return out
+	}
 	var out []Scenario
 	clone := func() Scenario {
 		c := sc
